@@ -165,6 +165,44 @@ func staleActor(h *subrig.History) bool {
 	return false
 }
 
+// incRacedRemoval: some start-up goroutine reported TriggerCountInc for its trigger although an
+// action that removes that trigger (shutdown, or the removal of every subscriber known to sit on
+// it) had already begun: the increment is not atomic with the registry.
+func incRacedRemoval(h *subrig.History, at map[int]attach) bool {
+	byG := map[int64]int64{}
+	for _, inc := range h.TrigIncs {
+		byG[inc.Gid] = inc.Ts
+	}
+	for _, st := range h.Startups {
+		incTs, ok := byG[st.Gid]
+		c := st.Creator.Load()
+		if !ok || c == nil {
+			continue
+		}
+		if h.ShutdownInv != 0 && h.ShutdownInv < incTs {
+			return true
+		}
+		inst := -1
+		for _, i := range h.Instances {
+			if i.Creator == c {
+				inst = i.ID
+			}
+		}
+		all := true
+		for _, s := range h.Subs {
+			if a, ok := at[s.Idx]; (ok && a.inst == inst) || s == c {
+				if rm, _ := h.FirstRemoval(s); rm == 0 || rm >= incTs {
+					all = false
+				}
+			}
+		}
+		if all {
+			return true
+		}
+	}
+	return false
+}
+
 // Check is the C13 oracle.
 func Check(res *fw.Result, h *subrig.History) {
 	witness := func(extra map[string]any) map[string]any {
@@ -292,6 +330,7 @@ func Check(res *fw.Result, h *subrig.History) {
 			res.Violate("counter-drift", fmt.Sprintf("%s: SubscriptionCountInc total %d != SubscriptionCountDec total %d", phase, h.SubInc, h.SubDec), mt, witness(nil))
 		case pending == "trigger counter":
 			mt["counter"] = "trigger"
+			mt["inc_raced_removal"] = fmt.Sprint(incRacedRemoval(h, at))
 			mt["sign"] = "inc>dec"
 			if h.TrigInc < h.TrigDec {
 				mt["sign"] = "inc<dec"
